@@ -9,6 +9,7 @@ import (
 	"time"
 
 	"go.brendoncarroll.net/p2p"
+	"go.brendoncarroll.net/p2p/f/x509"
 	"go.brendoncarroll.net/p2p/p/kademlia"
 	"go.brendoncarroll.net/p2p/verifhook"
 
@@ -64,7 +65,7 @@ func c14Hammer(st *Stack, stop <-chan struct{}, calls *atomic.Int64) *sync.WaitG
 }
 
 func runC14(r *ev.Run) {
-	r.Rule = "race-detector build (-race, halt_on_error=0, reports parsed and classified by access site): per stack the C01 ledger workload at high contention (3 nodes, 4 senders and 3 receivers per node, replies from inside callbacks) while other goroutines call LocalAddrs, MTU, ParseAddr, PublicKey and LookupPublicKey on the same swarms, then Close racing everything; the C11 ask workload; DHTNode handlers and Cache accessors and iterators called concurrently, keys and values living in buffers the caller rewrites after every call. Second oracle: every callback checksums its buffer at entry and exit and scribbles it, and the ledger shows whether old contents ever surface. non-trivial = the workload delivered messages while the API hammer made calls; distinct = (stack, workload)"
+	r.Rule = "race-detector build (-race, halt_on_error=0, reports parsed and classified by access site): per stack the C01 ledger workload at high contention (3 nodes, 4 senders and 3 receivers per node, replies from inside callbacks) while other goroutines call LocalAddrs, MTU, ParseAddr, PublicKey and LookupPublicKey on the same swarms, then Close racing everything; the C11 ask workload; one key Registry loaded from and verified with by 8 goroutines; DHTNode handlers and Cache accessors and iterators called concurrently, keys and values living in buffers the caller rewrites after every call. Second oracle: every callback checksums its buffer at entry and exit and scribbles it, and the ledger shows whether old contents ever surface. non-trivial = the workload delivered messages while the API hammer made calls; distinct = (stack, workload)"
 	r.Assumptions = []string{"the race detector only sees races in executed interleavings: held means no report (and no canary hit) in these executions", "reports whose access sites are both outside the library (quic-go, x/crypto) are recorded as external, not judged"}
 	if !raceEnabled {
 		r.Extra["warning"] = "not a -race build: only the buffer canary oracle is active in this pass"
@@ -142,6 +143,7 @@ func runC14(r *ev.Run) {
 	runCancelRacesReply(r, "C14")
 	c14ConcurrentWrongIdentity(r, g)
 	c14Kademlia(r, g)
+	c14Registry(r, g)
 }
 
 // c14Kademlia calls DHTNode handlers the way a swarm's receive workers would: concurrently.
@@ -332,4 +334,68 @@ func c14ConcurrentWrongIdentity(r *ev.Run, g *rng.R) {
 	r.Eval(calls.Load())
 	r.NonTrivial("p2pke/wrong-identity-concurrent")
 	r.Count("wrong_identity_tells", calls.Load())
+}
+
+// c14Registry: one key Registry shared by 8 goroutines, the way the receive workers of a p2pkeswarm node share theirs: each
+// loads verifiers and signers for its own key and checks that a verifier loaded for key j accepts j's signature and refuses
+// everybody else's (a verifier that ends up holding another goroutine's key is what a race on the parsing path produces).
+func c14Registry(r *ev.Run, g *rng.R) {
+	caseID := fmt.Sprintf("registry-%d", r.Batch)
+	if !r.Want(caseID) {
+		return
+	}
+	reg := x509.DefaultRegistry()
+	const workers = 8
+	msg := []byte("c14 registry message")
+	sigs := make([][]byte, workers)
+	keys := make([]testKey, workers)
+	for j := range keys {
+		keys[j] = keyN(700 + j)
+		s, err := reg.LoadSigner(&keys[j].Priv)
+		if err != nil {
+			r.Inconclusive("c14 registry: " + err.Error())
+			return
+		}
+		sigs[j], _ = s.Sign(nil, msg)
+	}
+	var wg sync.WaitGroup
+	var ops atomic.Int64
+	var bad atomic.Value
+	for j := 0; j < workers; j++ {
+		j := j
+		wg.Add(1)
+		go func() {
+			defer wg.Done()
+			pub := keys[j].Pub
+			enc := x509.MarshalPublicKey(nil, &pub)
+			for i := 0; i < pick(r, 1500, 10000); i++ {
+				var v x509.Verifier
+				var err error
+				if i%2 == 0 {
+					v, err = reg.LoadVerifier(&pub)
+				} else {
+					v, err = reg.ParseVerifier(enc)
+				}
+				if err != nil {
+					bad.CompareAndSwap(nil, "a valid key could not be loaded: "+err.Error())
+					return
+				}
+				other := (j + 1 + i%(workers-1)) % workers
+				if !v.Verify(msg, sigs[j]) {
+					bad.CompareAndSwap(nil, fmt.Sprintf("the verifier loaded for key %d refuses that key's signature", j))
+				}
+				if v.Verify(msg, sigs[other]) {
+					bad.CompareAndSwap(nil, fmt.Sprintf("the verifier loaded for key %d accepts the signature of key %d", j, other))
+				}
+				ops.Add(1)
+			}
+		}()
+	}
+	wg.Wait()
+	r.Eval(ops.Load())
+	if b := bad.Load(); b != nil {
+		r.Violate("C14/registry-verifier-mixed-up", caseID, "concurrent use of one key registry: "+b.(string), map[string]any{"workers": workers})
+		return
+	}
+	r.NonTrivial("x509/registry-concurrent-load")
 }
